@@ -12,6 +12,10 @@ CHECKS = {
    text="spec/Pkcs7Sym.tla defines VerifyImage(blob, cert, image) = the SPC content carries this image's digest /\\ RFCVerify(blob, cert); TLC enumerates images x signature blobs with one or two signer infos (honest, transplanted from another image, digest rewritten, attacker-made under the same issuer+serial, signature over other bytes) x certificates (right, other, same issuer+serial with another key), checks NoOtherKey/ContentBound/TwinRejected and emits must_not/must/may; each case is concretised (real RSA signatures, real PE images with the blob attached by the harness's own certificate-table writer) and run through Authenticode.Verify and Parse(file).Verify, alone and behind a foreign signature entry; covered bytes of verifying images are flipped and must stop verifying.",
    note="Trusted: TLC, symbolic cryptography assumptions, harness DER builder / PE writer, image digests computed by the harness from the specification's ranges. Quick flips every 7th covered byte, thorough every byte.",
    technique="symbolic TLA+ verification rule model-checked with TLC; TLC-enumerated forgeries concretised and run on the code"),
+ "C03": dict(level="model_checking", ref="5/C03",
+   text="spec/PeSign.tla models signing as a state machine over the sequence of signer certificates (Sign, re-parse, Verify) with VerifyMatchesSigners / SignersOnlyGrow checked by TLC; TLC-generated histories (Sign by A, B, A' = same issuer+serial with another key; re-parse; Verify) run on real PECOFFBinary objects for unsigned and already-signed images of different length classes, RSA 2048/3072/4096 and certificate shapes; after each step the serialised bytes are projected by independent code (directory entry, WIN_CERTIFICATE walk, paddings, embedded digest vs the specification digest of the output, which key signed, original bytes preserved) and validated by TLC against spec/PeSignTrace.tla, which also requires Verify = true exactly for the certificates that signed, on the object and on a fresh parse.",
+   note="Trusted: TLC, harness projection (own PE/WIN_CERTIFICATE/PKCS#7 readers, digest over the specification's ranges). Layouts are representatives, not the full C01 space; histories exhaustive to depth 3 (quick) / 4 (thorough).",
+   technique="TLA+ signing state machine; TLC-generated histories replayed on the code; TLC trace validation of independently projected output"),
  "C04": dict(level="model_checking", ref="5/C04",
    text="spec/Pkcs7Sym.tla states RFCVerify (signer entry names the certificate's issuer+serial, carries signed attributes, RSA-SHA256 valid under the certificate's key over the attributes as they appear, messageDigest = H(encapsulated content)); TLC enumerates every symbolic blob of the bounded space x 3 verifying certificates and emits must_not/must/may; the harness builds each blob as DER with real RSA signatures and runs every entry point (ParsePKCS7+Verify wrapped and bare, EFIVariableAuthentication2.Verify, ParseAuthenticode). Single-bit and structural mutations of library-, OpenSSL-, sbsign- and sbvarsign-produced blobs are projected by an independent reader to observations that TLC judges with the same rule (spec/Pkcs7Obs.tla).",
    note="Trusted: TLC, symbolic cryptography assumptions, harness PKCS#7 reader/builder (encoding/asn1, crypto/rsa). Mutated blobs the independent reader cannot parse are not judged. The declared digestAlgorithm OID is not part of the statement (MAY).",
